@@ -10,6 +10,8 @@ package main
 // is handed (the callee contract of the recursion relies on all 54 of them).
 
 import (
+	"fmt"
+	"go/types"
 	"regexp"
 	"strings"
 )
@@ -23,7 +25,11 @@ func init() {
 		Title:    "Object and scope graphs survive decoration and optional restoration",
 		Packages: []string{pkgDecorator},
 		Build: func(p *Program, tier string) ([]*Unit, []UnitError) {
-			us, es := buildFuncUnits(p, convs, nil)
+			wo := map[string]*UnitOpts{}
+			for _, c := range convs {
+				wo[c] = writeOnceOpts()
+			}
+			us, es := buildFuncUnits(p, convs, wo)
 			us2, es2 := buildDecorateNode(p, tier)
 			us3, es3 := buildRestoreNode(p, tier, "")
 			us4, es4 := buildFuncUnits(p, []string{fd("decorateSelectorExpr")}, nil)
@@ -51,4 +57,37 @@ func init() {
 			"Object.Type is not copied (documented placeholder)",
 		},
 	})
+}
+
+// writeOnceOpts: an object or scope map entry is written once. The conversions register a new
+// object before converting what it refers to, so that a cycle (object -> declaring node ->
+// identifier -> the same object) comes back to the memo entry; registering later would let the
+// inner conversion create and register a second counterpart that the outer one then overwrites —
+// two identifiers sharing an ast object would end up with different dst objects. Obligation at
+// every update of an object/scope map: the key is not in the map yet.
+func writeOnceOpts() *UnitOpts {
+	opts := &UnitOpts{Trace: true}
+	opts.AtExit = func(ex *Exec, frm *frame, g string, st *State, res []Val) {
+		n := 0
+		for i := range ex.trace {
+			ev := &ex.trace[i]
+			if ev.Kind != "mapupdate" || ev.Depth != 0 || ev.Pre == nil {
+				continue
+			}
+			mt, ok := ev.Args[0].Typ.Underlying().(*types.Map)
+			if !ok {
+				continue
+			}
+			kt := typeKey(mt.Key())
+			if !strings.HasSuffix(kt, ".Object") && !strings.HasSuffix(kt, ".Scope") {
+				continue
+			}
+			n++
+			_, dk := ex.mapKeys(mt)
+			goal := not(sel(sel(ex.u.get(ev.Pre, dk), ev.Args[0].T), ev.Args[1].T))
+			ex.oblige(fmt.Sprintf("%s#graph:entry_written_once@%d", shortFn(frm.fn), n), "schema", ev.Guard, goal,
+				"an object/scope map entry is created once and never overwritten (key type "+kt+")", "")
+		}
+	}
+	return opts
 }
